@@ -30,6 +30,7 @@ import (
 	"sync"
 	"sync/atomic"
 	"testing"
+	"time"
 )
 
 // ------------------------------------------------------------------ plumbing
@@ -936,7 +937,10 @@ func vC16Stress(seed int64, size, workers, opsPer int) map[string]any {
 			}
 		}(w)
 	}
-	wg.Wait()
+	if !vC16WaitOrHang(&wg) {
+		return map[string]any{"k": "go-stress", "go_fail": fmt.Sprintf("deadlock: %d workers on cache.New(%d) did not finish", workers, size), "nontrivial": true,
+			"desc": map[string]any{"size": size, "workers": workers, "ops_per_worker": opsPer}}
+	}
 	goFail, fkey := "", ""
 	n, bad := vC16Reachable(c)
 	if bad != "" {
@@ -974,6 +978,80 @@ func vC16Stress(seed int64, size, workers, opsPer int) map[string]any {
 		"desc": map[string]any{"size": size, "workers": workers, "ops_per_worker": opsPer, "final_len": c.Len(), "reachable": n}}
 }
 
+
+
+// wait for a group of workers; false = they did not finish (deadlock).  The
+// bound only turns a hang into a reported failure; a passing run takes well
+// under a second.
+func vC16WaitOrHang(wg *sync.WaitGroup) bool {
+	done := make(chan struct{})
+	go func() { wg.Wait(); close(done) }()
+	select {
+	case <-done:
+		return true
+	case <-time.After(150 * time.Second):
+		return false
+	}
+}
+
+// Lock discipline (theorem no_nested_locks, observed on the code): a writer that
+// waits for a segment lock holds no other segment lock.  A writer is parked in
+// the middle of its spill scan (the test owns the lock of the segment it reaches
+// next); every other segment must then be lockable.  A lock found busy is
+// re-tried for several seconds, so a writer that is merely still inside its own
+// section (and not parked) is never reported.
+func vC16LockNesting() map[string]any {
+	goFail := ""
+	var desc []string
+	for _, nseg := range []uint8{4, 8} {
+		m := NewSegmentUInt64Map[any](nseg, 0)
+		ns := uint(len(m.segments))
+		seg := func(s uint) uint64 {
+			for k := uint64(1); ; k++ {
+				if m.getSegmentIndex(k) == s {
+					return k
+				}
+			}
+		}
+		const capacity = 1
+		m.SetWithCap(seg(5%ns), "x", capacity)
+		for _, own := range []uint{0, ns - 1, 3} {
+			hold := (own + 2) % ns
+			m.segments[hold].rwlock.Lock()
+			var wg sync.WaitGroup
+			wg.Add(1)
+			go func() { defer wg.Done(); m.SetWithCap(seg(own), "w", capacity) }()
+			// let the writer reach the held segment
+			for i := 0; i < 50; i++ {
+				runtime.Gosched()
+				time.Sleep(time.Millisecond)
+			}
+			for s := uint(0); s < ns && goFail == ""; s++ {
+				if s == hold {
+					continue
+				}
+				free := false
+				for try := 0; try < 3000 && !free; try++ {
+					if m.segments[s].rwlock.TryLock() {
+						m.segments[s].rwlock.Unlock()
+						free = true
+					} else {
+						time.Sleep(time.Millisecond)
+					}
+				}
+				if !free {
+					goFail = fmt.Sprintf("%d segments: a SetWithCap writer of segment %d waiting for segment %d keeps segment %d locked (nested segment locks: other readers/writers wait on unrelated work, two spilling writers can deadlock)", ns, own, hold, s)
+				}
+			}
+			m.segments[hold].rwlock.Unlock()
+			if !vC16WaitOrHang(&wg) && goFail == "" {
+				goFail = "SetWithCap did not return after the held segment was released"
+			}
+			desc = append(desc, fmt.Sprintf("nseg=%d own=%d held=%d", ns, own, hold))
+		}
+	}
+	return map[string]any{"k": "go-lock-nesting", "go_fail": goFail, "nontrivial": true, "desc": map[string]any{"probes": desc}}
+}
 
 // CompareAndSwap / CompareAndDelete atomicity under contention (Go side only):
 // every worker reads the current box of a hot key and tries to replace it by a
@@ -1023,7 +1101,9 @@ func vC16CasStress(seed int64, workers, iters int) map[string]any {
 			}
 		}(w)
 	}
-	wg.Wait()
+	if !vC16WaitOrHang(&wg) {
+		return map[string]any{"k": "go-cas-stress", "go_fail": "deadlock: CAS workers did not finish", "nontrivial": true, "desc": map[string]any{"workers": workers}}
+	}
 	goFail := ""
 	var total int64
 	for ki, k := range keys {
@@ -1082,7 +1162,9 @@ func vC16RaceSparse() map[string]any {
 		}
 		m.segments[2].rwlock.Unlock()
 		c.Add(ko, "o") // evicts x and y, returns
-		wg.Wait()
+		if !vC16WaitOrHang(&wg) {
+			return map[string]any{"k": "go-race-sparse", "go_fail": "deadlock: the parked Add calls did not return", "nontrivial": true, "desc": map[string]any{}}
+		}
 		n, _ := vC16Reachable(c)
 		if n > worst {
 			worst = n
@@ -1141,6 +1223,7 @@ func TestVerifC16Seg(t *testing.T) {
 			tr.emit(vC16SegHistory(r, powers[r.Intn(len(powers))], initcaps[r.Intn(len(initcaps))], 30+r.Intn(60)))
 		}
 	}
+	tr.emit(vC16LockNesting())
 	rounds, ops := 4, 4000
 	if os.Getenv("VERIF_TIER") == "thorough" {
 		rounds, ops = 12, 20000
